@@ -624,6 +624,95 @@ fn h_index_last_max_index_empty() {
 fn h_index_last_max_index_mat2x2() {
     ck_index(&[2, 2], 4, 3);
 }
+// ---------------- rise / fall index vectors and the sortedness tests (src/algorithm/monadic/sort.rs) ----------------
+/// `p` is the stable sorting permutation of the rows (ascending, or descending when `down`)
+fn is_stable_sorting_perm(a: &Array<u8>, p: &[usize], down: bool) -> bool {
+    let rc = a.row_count();
+    if p.len() != rc {
+        return false;
+    }
+    let mut i = 0;
+    while i < rc {
+        if p[i] >= rc {
+            return false;
+        }
+        let mut j = 0;
+        while j < i {
+            if p[j] == p[i] {
+                return false;
+            }
+            j += 1;
+        }
+        if i > 0 {
+            let (x, y) = (ArrayCmpSlice(a.row_slice(p[i - 1])), ArrayCmpSlice(a.row_slice(p[i])));
+            let ord = if down { y.cmp(&x) } else { x.cmp(&y) };
+            if ord == Ordering::Greater || (ord == Ordering::Equal && p[i - 1] > p[i]) {
+                return false;
+            }
+        }
+        i += 1;
+    }
+    true
+}
+fn ck_grade(shape: &[usize], n: usize, down: bool) {
+    let (a, data, _f, _k) = mk(shape, n);
+    kani::assume(truthful(&a));
+    let plain = Array { shape: Shape(shape.to_vec()), data: Data(data.clone()), meta: ArrayMeta(None) };
+    let (pa, pp) = if down { (a.fall_indices(), plain.fall_indices()) } else { (a.rise_indices(), plain.rise_indices()) };
+    assert!(is_stable_sorting_perm(&plain, &pp, down));
+    assert!(same_usize(&pa, &pp));
+    // the sortedness tests agree with the definition, with and without marks
+    assert!(a.is_sorted_up() == rows_sorted(&plain, true) && plain.is_sorted_up() == rows_sorted(&plain, true));
+    assert!(a.is_sorted_down() == rows_sorted(&plain, false) && plain.is_sorted_down() == rows_sorted(&plain, false));
+}
+//@ id=C08.e3.grade.rise_indices.list3 props=C08,C06,C09 level=bounded tier=quick budget=900 bound="byte array of shape [3], all truthful mark sets" desc="Array::rise_indices is the stable ascending sorting permutation of the rows, the same with and without truthful marks; is_sorted_up / is_sorted_down agree with the definition"
+#[kani::proof]
+#[kani::unwind(8)]
+fn h_grade_rise_list3() {
+    ck_grade(&[3], 3, false);
+}
+//@ id=C08.e3.grade.rise_indices.mat2x2 props=C08,C06,C09 level=bounded tier=quick budget=900 bound="byte array of shape [2, 2], all truthful mark sets" desc="Array::rise_indices is the stable ascending sorting permutation of the rows, the same with and without truthful marks; is_sorted_up / is_sorted_down agree with the definition"
+#[kani::proof]
+#[kani::unwind(8)]
+fn h_grade_rise_mat2x2() {
+    ck_grade(&[2, 2], 4, false);
+}
+//@ id=C08.e3.grade.rise_indices.empty props=C08,C06,C09 level=bounded tier=quick budget=900 bound="byte array of shape [0], all truthful mark sets" desc="Array::rise_indices is the stable ascending sorting permutation of the rows, the same with and without truthful marks; is_sorted_up / is_sorted_down agree with the definition"
+#[kani::proof]
+#[kani::unwind(8)]
+fn h_grade_rise_empty() {
+    ck_grade(&[0], 0, false);
+}
+//@ id=C08.e3.grade.rise_indices.list4 props=C08,C06,C09 level=bounded tier=thorough budget=900 bound="byte array of shape [4], all truthful mark sets" desc="Array::rise_indices is the stable ascending sorting permutation of the rows, the same with and without truthful marks; is_sorted_up / is_sorted_down agree with the definition"
+#[kani::proof]
+#[kani::unwind(8)]
+fn h_grade_rise_list4() {
+    ck_grade(&[4], 4, false);
+}
+//@ id=C08.e3.grade.fall_indices.list3 props=C08,C06,C09 level=bounded tier=quick budget=900 bound="byte array of shape [3], all truthful mark sets" desc="Array::fall_indices is the stable descending sorting permutation of the rows, the same with and without truthful marks; is_sorted_up / is_sorted_down agree with the definition"
+#[kani::proof]
+#[kani::unwind(8)]
+fn h_grade_fall_list3() {
+    ck_grade(&[3], 3, true);
+}
+//@ id=C08.e3.grade.fall_indices.mat2x2 props=C08,C06,C09 level=bounded tier=quick budget=900 bound="byte array of shape [2, 2], all truthful mark sets" desc="Array::fall_indices is the stable descending sorting permutation of the rows, the same with and without truthful marks; is_sorted_up / is_sorted_down agree with the definition"
+#[kani::proof]
+#[kani::unwind(8)]
+fn h_grade_fall_mat2x2() {
+    ck_grade(&[2, 2], 4, true);
+}
+//@ id=C08.e3.grade.fall_indices.empty props=C08,C06,C09 level=bounded tier=quick budget=900 bound="byte array of shape [0], all truthful mark sets" desc="Array::fall_indices is the stable descending sorting permutation of the rows, the same with and without truthful marks; is_sorted_up / is_sorted_down agree with the definition"
+#[kani::proof]
+#[kani::unwind(8)]
+fn h_grade_fall_empty() {
+    ck_grade(&[0], 0, true);
+}
+//@ id=C08.e3.grade.fall_indices.list4 props=C08,C06,C09 level=bounded tier=thorough budget=900 bound="byte array of shape [4], all truthful mark sets" desc="Array::fall_indices is the stable descending sorting permutation of the rows, the same with and without truthful marks; is_sorted_up / is_sorted_down agree with the definition"
+#[kani::proof]
+#[kani::unwind(8)]
+fn h_grade_fall_list4() {
+    ck_grade(&[4], 4, true);
+}
 //@ id=C05.e3.meta.mark_helpers props=C05,C09 level=complete tier=quick budget=600 desc="ArrayMeta mark helpers at the bit level: take_sorted_flags / take_value_flags return and clear exactly their group; or_sorted_flags sets only sortedness bits; mark_sorted_* set or clear exactly one bit; reset_flags clears all; an absent meta stays absent unless a bit must be set"
 #[kani::proof]
 fn h_meta_helpers() {
